@@ -58,6 +58,14 @@ func genC17(r *vh.Runner) {
 				if rng.Bool() {
 					progs = append(progs, []qop{{Op: "recv"}})
 				}
+				if k%3 == 2 {
+					// the deadline is re-armed (or cleared) at about the moment it expires
+					progs = [][]qop{
+						{{Op: "setdeadline", Dms: dl}, {Op: "recv"}},
+						{{Op: "sleepus", Dms: at}, {Op: "setdeadline", Dms: []int{20, 0, 3}[rng.Intn(3)]}, {Op: "send"}},
+						{{Op: "setdeadline", Dms: dl}, {Op: "send"}, {Op: "send"}, {Op: "send"}, {Op: "send"}},
+					}
+				}
 				queueHistoryWith(r, c, h, progs)
 			}
 		})
@@ -79,6 +87,10 @@ func genC17(r *vh.Runner) {
 		r.Case(fmt.Sprintf("server-close-during-handshakes/%d", i), map[string]any{"case": i}, func(c *vh.Case) {
 			c.Bubble(func() { serverCloseDuringHandshakes(r, c, i) })
 		})
+	}
+	no := r.Pick(12, 300)
+	for i := 0; i < no; i++ {
+		r.Case(fmt.Sprintf("accept-queue-overflow/%d", i), map[string]any{"case": i}, func(c *vh.Case) { acceptOverflowRun(r, c, i) })
 	}
 	nh := r.Pick(24, 400)
 	for i := 0; i < nh; i++ {
